@@ -18,7 +18,7 @@ RLIMIT = 30
 ASSUMED = [
     {"what": "chumsky: `choice((end(), .., P)).rewind()` succeeds in front of a character iff one of the alternatives accepts it; `one_of(s)` accepts the characters of s, "
              "`newline()` accepts \\n and \\r, `any().filter(p)` the characters p holds for; char::is_alphanumeric is, for the ASCII characters of the rows, "
-             "[A-Za-z0-9] (ascii_alnum); the alternative `just(\"..\")` is not modelled (no row needs it)", "keys": []},
+             "[A-Za-z0-9] (ascii_alnum) plus the five non-ASCII letters of the rows, is_ascii_alphanumeric exactly [A-Za-z0-9]; the alternative `just(\"..\")` is not modelled (no row needs it)", "keys": []},
 ]
 TRUSTED = [
     "oracle (C02): PRQL's operators need no space around them (`a==1`, `x+1` lex as three tokens), and `null` / `true` / `false` are literals wherever they are whole "
@@ -29,7 +29,9 @@ TRUSTED = [
 ENDS = {"eq": "=", "bang": "!", "lt": "<", "gt": ">", "amp": "&", "pipe": "|", "plus": "+", "minus": "-", "star": "*", "slash": "/", "percent": "%", "question": "?",
         "tilde": "~", "colon": ":", "lparen": "(", "rparen": ")", "lbracket": "[", "rbracket": "]", "lbrace": "{", "rbrace": "}", "comma": ",", "space": " ", "tab": "\\t",
         "newline": "\\n", "hash": "#"}
-CONTINUES = {"a": "a", "Z": "Z", "digit": "7", "underscore": "_"}
+CONTINUES = {"a": "a", "Z": "Z", "digit": "7", "underscore": "_",
+             # letters outside ASCII continue a bare name as well (ident_part: `c.is_alphabetic()` / `is_alphanumeric()`, unit interp_ident): `importé`, `funcție`, `nullж` are names
+             "e_acute": "é", "t_comma": "ț", "cyrillic": "ж", "cjk": "日", "greek": "λ"}
 
 
 def DYNAMIC_LABELS():
@@ -47,11 +49,15 @@ def build(X):
     m_oneof = re.search(r'one_of\("((?:[^"\\]|\\.)*)"\)', body)
     if m_filter:
         pred = " ".join(m_filter.group(1).split())
-        pred = re.sub(r"\bc\.is_alphanumeric\(\)", "ascii_alnum(*c)", pred)
+        pred = re.sub(r"\bc\.is_alphanumeric\(\)", "uni_alnum(*c)", pred)
+        pred = re.sub(r"\bc\.is_alphabetic\(\)", "uni_alpha(*c)", pred)
+        pred = re.sub(r"\bc\.is_ascii_alphanumeric\(\)", "ascii_alnum(*c)", pred)
+        pred = re.sub(r"\bc\.is_ascii_alphabetic\(\)", "ascii_alpha(*c)", pred)
+        pred = re.sub(r"\bc\.is_ascii_digit\(\)", "ascii_digit(*c)", pred)
         if re.search(r"\bc\.\w+\(", pred):
             raise ExtractionError("end_expr: the filter predicate uses a char method the unit has no characterization for: %s" % pred)
         accepts = pred
-        f.rewrites.append({"rule": "table", "what": "predicate of `any().filter(|c: &char| ..)` taken as the body of spec fn accepts(c); c.is_alphanumeric() -> ascii_alnum(*c)"})
+        f.rewrites.append({"rule": "table", "what": "predicate of `any().filter(|c: &char| ..)` taken as the body of spec fn accepts(c); char::is_alphanumeric / is_alphabetic / is_ascii_* -> their characterization on the characters of the rows"})
     elif m_oneof:
         chars = bytes(m_oneof.group(1), "utf-8").decode("unicode_escape")
         alts = ["*c == %s" % _lit({"\t": "\\t", "\n": "\\n", "\r": "\\r"}.get(ch, ch)) for ch in chars]
@@ -62,7 +68,13 @@ def build(X):
     else:
         raise ExtractionError("end_expr: neither `one_of(\"..\")` nor `any().filter(|c: &char| ..)` found")
     lines = ["", "#![allow(unused_imports, dead_code, unused_parens)]", "use vstd::prelude::*;", "verus! {",
-             "pub open spec fn ascii_alnum(c: char) -> bool { ('a' <= c && c <= 'z') || ('A' <= c && c <= 'Z') || ('0' <= c && c <= '9') }",
+             "pub open spec fn ascii_digit(c: char) -> bool { '0' <= c && c <= '9' }",
+             "pub open spec fn ascii_alpha(c: char) -> bool { ('a' <= c && c <= 'z') || ('A' <= c && c <= 'Z') }",
+             "pub open spec fn ascii_alnum(c: char) -> bool { ascii_alpha(c) || ascii_digit(c) }",
+             "// the letters outside ASCII that the rows use (Unicode: all alphabetic): char::is_alphabetic / is_alphanumeric hold for them",
+             "pub open spec fn row_letter(c: char) -> bool { %s }" % " || ".join("c == %s" % _lit(ch) for ch in ("é", "ț", "ж", "日", "λ")),
+             "pub open spec fn uni_alpha(c: char) -> bool { ascii_alpha(c) || row_letter(c) }",
+             "pub open spec fn uni_alnum(c: char) -> bool { ascii_alnum(c) || row_letter(c) }",
              "pub open spec fn accepts(c: &char) -> bool { %s }" % accepts]
     for k, ch in sorted(ENDS.items()):
         lines.append("proof fn ends_%s() { assert(accepts(&%s)); } // @EE.ends.%s" % (k, _lit(ch), k))
@@ -81,6 +93,8 @@ CASES = [
     ("from t\nselect {v = a??0+1}\nsort v\n", [(1,), (2,), (3,)]),
     ("from t\nderive {nullable = 5, true_x = 6}\nselect {nullable, true_x}\ntake 1\n", [(5, 6)]),
     ("from t\nfilter (true||a==2)\nselect {b}\nsort b\n", None),
+    # names that start with a keyword / literal word and go on with a letter outside ASCII are names
+    ("from t\nderive {importé = a, funcție = b, nullж = 1}\nselect {importé, funcție, nullж}\nsort funcție\ntake 1\n", [(2, 0, 1)]),
 ]
 
 
